@@ -99,6 +99,8 @@ func workerMain(caseFile, resultFile string) {
 	}
 
 	done := make(chan struct{})
+	hangPlatform = p
+	attachDebugTracer(p)
 	go watchDeadlock(done, p.Driver)
 
 	stage("run")
@@ -143,6 +145,7 @@ func workerMain(caseFile, resultFile string) {
 	// the engine goroutine may still be delivering the last events (observed:
 	// "assignment to entry in nil map" in tracing.(*DBTracer).StartTask), which
 	// is a teardown race of the runner, not a property of the kernels.
+	dumpOpenTasks()
 	res.Stage = "done"
 	stage("done")
 
@@ -156,6 +159,111 @@ func workerMain(caseFile, resultFile string) {
 		os.Exit(exitInfra)
 	}
 	os.Exit(0)
+}
+
+// pendingEvents counts the events still in the serial engine's queues.
+func pendingEvents(e sim.Engine) int {
+	se, ok := e.(*sim.SerialEngine)
+	if !ok {
+		return -1
+	}
+	v := reflect.ValueOf(se).Elem()
+	n := 0
+	for _, f := range []string{"queue", "secondaryQueue"} {
+		q, ok := unexported(v, f).Interface().(sim.EventQueue)
+		if ok && q != nil {
+			n += q.Len()
+		}
+	}
+	return n
+}
+
+// hangKind names the structural shape of a hang from the driver's queues.
+func hangKind(d *driver.Driver) string {
+	if hangPlatform != nil {
+		if n := pendingEvents(hangPlatform.Sim.GetEngine()); n > 0 {
+			// events are scheduled but no goroutine runs the engine: the driver's
+			// runAsync/runEngine hand-off lost the restart (host-thread race, C12)
+			return fmt.Sprintf("driver-race-engine-not-restarted-with-events-pending")
+		}
+	}
+	for _, ctx := range Contexts(d) {
+		qs := unexported(reflect.ValueOf(ctx).Elem(), "queues")
+		for i := 0; i < qs.Len(); i++ {
+			q := qs.Index(i).Interface().(*driver.CommandQueue)
+			cmds := unexported(reflect.ValueOf(q).Elem(), "commands")
+			if cmds.Len() == 0 {
+				continue
+			}
+			c := cmds.Index(0).Interface().(driver.Command)
+			switch c.(type) {
+			case *driver.MemCopyH2DCommand, *driver.MemCopyD2HCommand:
+				if q.IsRunning && len(c.GetReqs()) == 0 {
+					// every request of the copy has been answered, yet the command was
+					// never dequeued
+					return "memcopy-answered-but-never-dequeued"
+				}
+			}
+		}
+	}
+	return "engine-idle-commands-outstanding"
+}
+
+// dumpQueues prints the commands still queued (diagnostic).
+func dumpQueues(d *driver.Driver) {
+	for ci, ctx := range Contexts(d) {
+		qs := unexported(reflect.ValueOf(ctx).Elem(), "queues")
+		for i := 0; i < qs.Len(); i++ {
+			q := qs.Index(i).Interface().(*driver.CommandQueue)
+			cmds := unexported(reflect.ValueOf(q).Elem(), "commands")
+			for k := 0; k < cmds.Len(); k++ {
+				c := cmds.Index(k).Interface().(driver.Command)
+				extra := ""
+				if h, ok := c.(*driver.MemCopyH2DCommand); ok {
+					extra = fmt.Sprintf(" dst=%#x srcType=%T", uint64(h.Dst), h.Src)
+				}
+				fmt.Fprintf(os.Stderr, "PLATLAT-QUEUED ctx%d queue%d(gpu %d, running=%v) #%d %T pendingReqs=%d%s\n", ci, i, q.GPUID, q.IsRunning, k, c, len(c.GetReqs()), extra)
+				for _, r := range c.GetReqs() {
+					fmt.Fprintf(os.Stderr, "PLATLAT-QUEUED    req %T -> %s\n", r, r.Meta().Dst)
+				}
+			}
+		}
+	}
+}
+
+var hangPlatform *Platform
+
+// dumpStuckPorts lists, for a structural hang, every port that still holds a
+// message (where the simulated hardware is stuck); diagnostic only.
+func dumpStuckPorts() {
+	if hangPlatform == nil {
+		return
+	}
+	n := 0
+	for _, c := range hangPlatform.Sim.Components() {
+		pc, ok := c.(interface{ Ports() []sim.Port })
+		if !ok {
+			continue
+		}
+		for _, p := range pc.Ports() {
+			in, out := p.PeekIncoming(), p.PeekOutgoing()
+			if in == nil && out == nil {
+				continue
+			}
+			n++
+			if n > 40 {
+				return
+			}
+			fmt.Fprintf(os.Stderr, "PLATLAT-STUCK port %s:", p.Name())
+			if in != nil {
+				fmt.Fprintf(os.Stderr, " incoming head %T from %s", in, in.Meta().Src)
+			}
+			if out != nil {
+				fmt.Fprintf(os.Stderr, " outgoing head %T to %s", out, out.Meta().Dst)
+			}
+			fmt.Fprintln(os.Stderr)
+		}
+	}
 }
 
 // queuedCommands counts the commands in all queues of all contexts.
@@ -216,6 +324,14 @@ func watchDeadlock(done <-chan struct{}, d *driver.Driver) {
 				fmt.Fprintf(os.Stderr, "\nPLATLAT-LOST-WAKEUP all command queues are empty but the host is blocked in CommandQueueStatusListener.Wait; all goroutines blocked\n")
 				os.Exit(exitLostWakeup)
 			} else {
+				dumpStuckPorts()
+				dumpQueues(d)
+				dumpOpenTasks()
+				kind := hangKind(d)
+				fmt.Fprintf(os.Stderr, "\nPLATLAT-HANG-KIND %s\n", kind)
+				if strings.HasPrefix(kind, "driver-race") {
+					os.Exit(exitLostWakeup)
+				}
 				fmt.Fprintf(os.Stderr, "\nPLATLAT-HANG engine idle (no event left) with %d command(s) outstanding, host blocked in CommandQueueStatusListener.Wait, all goroutines blocked\n", n)
 				os.Exit(exitHang)
 			}
